@@ -551,6 +551,9 @@ pub fn extra_definitions() -> Vec<Ty> {
         Ty::Array(Box::new(Ty::Array(Box::new(Ty::Scalar(Sc::UInt)), 3)), 2),
         // char[2][2][2]: the innermost char[2] is a string, so this is a 2 x 2 array of strings
         Ty::Array(Box::new(Ty::Array(Box::new(Ty::Str(2)), 2)), 2),
+        // unequal dimensions: char[8][2] is two strings of at most eight characters, char[4][3][2] is 2 x 3 strings of at most four
+        Ty::Array(Box::new(Ty::Str(8)), 2),
+        Ty::Array(Box::new(Ty::Array(Box::new(Ty::Str(4)), 3)), 2),
         Ty::Array(Box::new(e.clone()), 2),
         Ty::Array(Box::new(Ty::Struct(vec![u.clone(), Ty::Scalar(Sc::Float)])), 2),
         Ty::Array(Box::new(Ty::Scalar(Sc::Double)), 3),
